@@ -21,7 +21,7 @@ from . import c05
 
 LEVEL = "model_checking"
 ALIGN_ON = {"align_assign_span": "1", "align_right_cmt_span": "3", "align_var_def_span": "1", "align_pp_define_span": "2", "align_nl_cont": "1"}
-LEXLANG = {"C": "C", "CPP": "CPP", "OC": "OC", "JAVA": "JAVA"}
+LEXLANG = {"C": "C", "CPP": "CPP", "OC": "OC", "JAVA": "JAVA", "CS": "CS", "D": "D", "VALA": "VALA"}
 
 
 def masked(out, lang):
@@ -182,8 +182,12 @@ def fam(name):
 
 def programs(quick):
     out = []
-    for name, lang, src in skel.all_skeletons(("C", "CPP", "OC", "JAVA")):
+    for name, lang, src in skel.all_skeletons(tuple(LEXLANG)):
         out.append((name, lang, src))
+    from ..universe import langunits
+    for lang in LEXLANG:
+        for n, s, _m in langunits.units(lang) + langunits.sp_units(lang):
+            out.append((n.replace(":", "-"), lang, s))
     for n, s in cgen.decl_units("C"):
         out.append(("decl-" + n, "C", s))
     for n, s in cgen.pp_units():
